@@ -239,11 +239,14 @@ def decomposition_setup(rep: Report, prog: Program) -> None:
                 ok = True
     rep.ob(rule, f.fq(), 'every rhs node is a vertex of the primal graph', f.loc(), ok, '' if ok else 'isolated nodes would be missing from the decomposition')
     # cliques: attachment nodes of every edge, and the externals
-    cl = [l for l in own_nodes(f.node) if isinstance(l, ast.For) and isinstance(l.iter, ast.BinOp) and isinstance(l.iter.op, ast.Add)]
+    cl = [l for l in own_nodes(f.node) if isinstance(l, ast.For) and (isinstance(l.iter, ast.BinOp) and isinstance(l.iter.op, ast.Add)
+                                                                        or isinstance(l.iter, ast.Call) and callee_last(l.iter) == 'chain')]
     okc = False
     for l in cl:
         txt = norm(l.iter)
-        if '.nodes for' in txt and '.edges()' in txt and any(f"[{a}.ext]" in txt for a in rhs_alias) and ' if ' not in txt:
+        # [e.nodes for e in rhs.edges()] + [rhs.ext]   or   chain((e.nodes for e in rhs.edges()), (rhs.ext,))
+        ext_elem = any(f"[{a}.ext]" in txt or f"({a}.ext,)" in txt for a in rhs_alias)
+        if '.nodes for' in txt and '.edges()' in txt and ext_elem and ' if ' not in txt:
             okc = True
     rep.ob(rule, f.fq(), 'cliques for [e.nodes for e in rhs.edges()] + [rhs.ext]', f.loc(), okc,
            'the externals form a clique, so some bag contains them all' if okc else 'the externals (or some edges) are not made a clique: no bag need contain all externals')
